@@ -40,3 +40,12 @@ func (ps *Pieces) SimTimes() []uint32 {
 
 // SimChunkBits returns the number of blocks present in a piece.
 func (ps *Pieces) SimChunkBits(i int) int { return ps.pieces[i].bitmap.Count() }
+
+// SimState returns the raw state word of one piece (0 incomplete, 1
+// complete, 2 busy: being hashed).
+func (ps *Pieces) SimState(i int) uint32 {
+	if i < 0 || i >= len(ps.pieces) {
+		return 0
+	}
+	return ps.pieces[i].state
+}
